@@ -118,6 +118,69 @@ def formatter_zero(ck, sh, mm):
     prove_paths(ck, 'format-zero', fn, goals, lambda c, g, o: replay_formatter(mm, 0.0, 0))
 
 
+def load_lines(ck, sh, mm, gname, kind):
+    """Load listing of distributed loads: every line carries the pulse number and the impedance of THAT pulse
+    (unequal segments: tapered wire G11; junction of different wires: G2), one line per loaded pulse."""
+    M = sh.mininec
+
+    def build(Mx, f, sigma):
+        m = catalogue.build(Mx, gname, f=f)
+        loads = []
+        for w in m.geo:
+            if kind == 'skin':
+                ld = Mx.Skin_Effect_Load(w, conductivity=sigma, all_wires=True)
+            else:
+                ld = Mx.Insulation_Load(w, 0.006, 3.0, all_wires=True)
+            m.register_load(ld, None, w.tag)
+            loads.append(ld)
+        m.fix_distributed_loads()
+        return m, loads
+
+    def fn():
+        old = (M.format_float, sh.pulse.format_float)
+        M.format_float = sh.pulse.format_float = tokens.format_float_stub
+        tokens.SIGN_FORK[0] = False
+        try:
+            f = pos('f', 0.1, 1000)
+            sigma = pos('sigma', 1e3, 1e9)
+            with symx.object_arrays():
+                m, loads = build(M, f, sigma)
+                text = m.loads_as_mininec()
+                want = [(p.idx + 1, ld.impedance(f, p)) for ld in loads for p in ld.pulses]
+        finally:
+            M.format_float, sh.pulse.format_float = old
+            tokens.SIGN_FORK[0] = True
+        return dict(inputs=dict(f=f, sigma=sigma), text=text, want=want)
+
+    def goals(o):
+        rf = tokens.read_field
+        lines = [ln for ln in o['text'].split('\n') if ln.startswith('PULSE NO.')]
+        g = [('one load line per loaded pulse', z3.BoolVal(len(lines) == len(o['want'])))]
+        if len(lines) != len(o['want']):
+            return g
+        for ln, (pn, z) in zip(lines, o['want']):
+            f_ = ln.split(':')[1].split(',')
+            z = SC.lift(z)
+            g.append(('load line of pulse %d: number, resistance and reactance of that pulse' % pn,
+                      z3.And(z3.BoolVal(int(f_[0]) == pn), _within(rf(f_[1]), z.re), _within(rf(f_[2]), z.im))))
+        return g
+
+    def replay(c, gn, out):
+        m, loads = build(mm, float(c['f']), float(c['sigma']))
+        lines = [ln for ln in m.loads_as_mininec().split('\n') if ln.startswith('PULSE NO.')]
+        want = [(p.idx + 1, ld.impedance(m.f, p)) for ld in loads for p in ld.pulses]
+        if len(lines) != len(want):
+            return ('C19:load-listing:count', '%s: %d load lines for %d loaded pulses' % (gname, len(lines), len(want)), dict(kind='load-lines'))
+        for ln, (pn, z) in zip(lines, want):
+            f_ = ln.split(':')[1].split(',')
+            R, X = float(f_[1]), float(f_[2])
+            if int(f_[0]) != pn or abs(R - z.real) > 5e-6 * abs(z.real) + 1e-6 or abs(X - z.imag) > 5e-6 * abs(z.imag) + 1e-6:
+                return ('C19:load-listing:value', '%s (%s load, %r MHz): load line "%s" but pulse %d is loaded with %r' % (gname, kind, m.f, ln.strip(), pn, z),
+                        dict(kind='load-lines', geometry=gname))
+        return None
+    prove_paths(ck, 'load-lines-%s-%s' % (gname, kind), fn, goals, replay, max_paths=64, sqrt_mode='uf-free', timeout_ms=10000)
+
+
 def main(args):
     ck = Check('C19', args)
     ck.shadow_stats = symx.load().stats
@@ -131,6 +194,7 @@ def main(args):
             for sg in (1, -1):
                 parts.append(('formatter', (lo, hi, ue, sg)))
     parts += [('report', (g,)) for g in (('G2', 'G9') if ck.tier == 'quick' else ('G2', 'G5', 'G9', 'G10', 'G12'))]
+    parts += [('load_lines', (g, k)) for g in ('G11', 'G2') for k in ('skin', 'coat')]
     run_parallel(ck, 'checks.c19', parts)
     ck.assumptions += ['f is a real number (IEEE rounding of f itself is not modelled); round-half-even of the C formatter is '
                        'over-approximated by |N - f*10^prec| <= 1/2',
